@@ -33,6 +33,10 @@ func runC04(c *Ctx) {
 	c04Serialisation(c)
 	// the websocket operation goroutine registers its epilogue (which owns the recover) before it dispatches (C11/terminal-frame)
 	c11TerminalFrame(c)
+	// a failing scalar marshaler fails only its own position (null + error), and one failure yields one entry per error
+	adapterWritesOnError(c)
+	errorListOnce(c)
+	c02ArgPath(c)
 }
 
 // userCallKind classifies a call instruction in generated code as a call into user code.
